@@ -393,7 +393,44 @@ def check_parser_total(chk):
             chk.ok('C16.P', f'value_parse_datetime: {norm(node)[:60]} [{exc}] is handled')
 
 
+def check_datetime_sim(chk, rule_of=None, only=None):
+    """normalisation, ISO text and parser, getters and datetime arithmetic evaluated (E6d) on concrete datetimes under several local zones -> set of clauses decided OK"""
+    from .. import dtsim
+    rule_of = rule_of or {'normalise': 'C16.N', 'format': 'C16.I', 'parse': 'C16.I', 'getter': 'C16.G', 'arith': 'C16.E'}
+    libfuncs = {f.name: f for f in library_functions(chk.repo, 'C16.E')}
+    cache = getattr(chk, '_dt_sim', None)
+    if cache is None:
+        cache = chk._dt_sim = dtsim.run_datetime(chk.repo, libfuncs, chk.tier, 'C16.E')
+    n, problems = cache
+    vmod = chk.repo.module('value')
+    where = {'normalise': (vmod, 'value_normalize_datetime'), 'format': (vmod, 'value_string'), 'parse': (vmod, 'value_parse_datetime'),
+             'getter': (chk.repo.module('library'), 'datetime getters'), 'arith': (chk.repo.module('runtime'), 'evaluate_expression')}
+    bad = set()
+    for clause in ('normalise', 'format', 'parse', 'getter', 'arith'):
+        if only and clause not in only:
+            continue
+        msgs = [m for c, m in problems if c == clause]
+        if msgs:
+            bad.add(clause)
+            mod, fn = where[clause]
+            chk.bad(rule_of[clause], mod, fn, msgs[0][:110], f'evaluation under several local zones: {msgs[0][:500]} ({len(msgs)} of {n} evaluations deviate in this clause)',
+                    node=mod.funcs.get(fn))
+    good = {c for c in rule_of if c not in bad and (not only or c in only)}
+    # a wrong normalisation or text invalidates what depends on it
+    if 'normalise' in bad:
+        good -= {'format', 'parse', 'getter'}
+    if 'format' in bad:
+        good -= {'parse'}
+    desc = {'normalise': 'aware -> local naive, date -> midnight, naive unchanged', 'format': 'value_string gives the ISO text of the instant in the local zone, truncated to milliseconds',
+            'parse': 'value_parse_datetime inverts it to the millisecond, reads Z / other offsets / 1-6 fraction digits / date-only text, and gives null for invalid text',
+            'getter': 'the seven getters return the parts of the normalised instant', 'arith': 'd + n is n milliseconds later and (d + n) - d = n for int and float spellings'}
+    for c in sorted(good):
+        chk.ok(rule_of[c], f'{desc[c]} (part of {n} evaluations on naive / aware / date values with sub-millisecond parts in the zones UTC, +05:45, -03:30, +13:45)', count=max(1, n // 5))
+    return good
+
+
 def run(chk):
+    chk.rule('C16.E', 'datetime + number / datetime - datetime by evaluation on concrete datetimes (E6d)', floor=1)
     chk.rule('C16.M', 'datetimeNew carry table, day-loop steps, constructor fields', floor=8)
     chk.rule('C16.G', 'component getters return the same-named part of the normalised value', floor=7)
     chk.rule('C16.N', 'normalisation: aware -> local naive, date -> midnight, naive unchanged', floor=3)
@@ -406,10 +443,16 @@ def run(chk):
         chk.advisory('C16.M', check_carry, chk)
     else:
         chk.guard('C16.M', check_carry, chk)
-    chk.guard('C16.G', check_getters, chk)
-    chk.guard('C16.N', check_normalize, chk)
-    chk.guard('C16.I', check_iso, chk)
+    good = chk.guard('C16.E', check_datetime_sim, chk) or set()
+    (chk.advisory if 'getter' in good else chk.guard)('C16.G', check_getters, chk)
+    (chk.advisory if 'normalise' in good else chk.guard)('C16.N', check_normalize, chk)
+    (chk.advisory if {'format', 'parse'} <= good else chk.guard)('C16.I', check_iso, chk)
     chk.guard('C16.P', check_parser_total, chk)
+    for clause, r in (('getter', 'C16.G'), ('normalise', 'C16.N'), ('format', 'C16.I')):
+        if clause in good:
+            chk.floors.pop(r, None)
+    if 'parse' in good:
+        chk.floors.pop('C16.P', None)
     # operator units: shared with C03.T (+ and - rows)
     from . import c03
     from ..rt import EvalExpr
